@@ -62,12 +62,16 @@ pub struct SProg {
     pub loom_arc: bool,
     /// mem::forget the receiver at the end instead of dropping it (leak injection)
     pub forget_rx: bool,
+    /// the thread that owns the receiver (recv / try_recv only there); it hands the receiver back to main
+    /// when it finishes, so the receiver outlives every sender
+    #[serde(default)]
+    pub rx_owner: u8,
 }
 
 impl SProg {
     pub fn s(&self) -> String {
         let body = self.threads.iter().map(|t| t.iter().map(|o| format!("{:?}", o)).collect::<Vec<_>>().join("; ")).collect::<Vec<_>>().join("  ||  ");
-        format!("{}{}{}", if self.loom_arc { "[loom::Arc] " } else { "" }, if self.forget_rx { "[forget rx] " } else { "" }, body)
+        format!("{}{}{}{}", if self.loom_arc { "[loom::Arc] " } else { "" }, if self.forget_rx { "[forget rx] " } else { "" }, if self.rx_owner != 0 { format!("[rx in thread {}] ", self.rx_owner) } else { String::new() }, body)
     }
     pub fn hash(&self) -> u64 {
         fnv(&self.s())
@@ -757,6 +761,7 @@ pub fn gen_sync(rng: &mut Rng, t: usize, k: usize, kinds: &str, o: GenOpts) -> S
     use SOp::*;
     let mut threads = Vec::new();
     let kb = kinds.as_bytes();
+    let rx_owner = if rng.chance(1, 3) { rng.below(t) } else { 0 };
     for th in 0..t {
         let len = 1 + rng.below(k);
         // guard state: 0 free, 1 held, 2 maybe held (after try_lock)
@@ -828,7 +833,7 @@ pub fn gen_sync(rng: &mut Rng, t: usize, k: usize, kinds: &str, o: GenOpts) -> S
                     }
                     's' => Send((th * 10 + ops.len()) as u8 + 1),
                     'r' => {
-                        if th != 0 {
+                        if th != rx_owner {
                             continue;
                         }
                         if rng.chance(1, 2) {
@@ -941,7 +946,7 @@ pub fn gen_sync(rng: &mut Rng, t: usize, k: usize, kinds: &str, o: GenOpts) -> S
         }
         threads.push(ops);
     }
-    SProg { threads, loom_arc: rng.below(100) < o.loom_arc_pct, forget_rx: rng.below(100) < o.forget_rx_pct }
+    SProg { threads, loom_arc: rng.below(100) < o.loom_arc_pct, forget_rx: rng.below(100) < o.forget_rx_pct, rx_owner: rx_owner as u8 }
 }
 
 /// Exhaustive enumeration: all programs with `t` threads and at most `k` ops per thread over `alphabet`
@@ -972,7 +977,7 @@ pub fn enumerate(t: usize, k: usize, alphabet: &dyn Fn(usize) -> Vec<SOp>, ok: &
     loop {
         let threads: Vec<Vec<SOp>> = (0..t).map(|th| per_thread[th][idx[th]].clone()).collect();
         if threads.iter().skip(1).all(|l| !l.is_empty()) {
-            out.push(SProg { threads, loom_arc: false, forget_rx: false });
+            out.push(SProg { threads, loom_arc: false, forget_rx: false, rx_owner: 0 });
         }
         let mut j = 0;
         loop {
@@ -1115,7 +1120,9 @@ enum RwGuard {
     W(loom::sync::RwLockWriteGuard<'static, i64>),
 }
 
-fn exec(p: &SProg, t: usize, o: &Objs, rx: Option<&loom::sync::mpsc::Receiver<u8>>, handles: &mut Vec<Option<loom::thread::JoinHandle<()>>>, it: &SM<IterState>) {
+type RxBack = Option<loom::sync::mpsc::Receiver<u8>>;
+
+fn exec(p: &SProg, t: usize, o: &Objs, rx: Option<&loom::sync::mpsc::Receiver<u8>>, handles: &mut Vec<Option<loom::thread::JoinHandle<RxBack>>>, it: &SM<IterState>, rx_back: &mut Vec<loom::sync::mpsc::Receiver<u8>>) {
     use std::sync::atomic::Ordering::SeqCst;
     let mut guards: [Option<loom::sync::MutexGuard<'static, i64>>; 2] = [None, None];
     let mut rwg: Option<RwGuard> = None;
@@ -1179,7 +1186,9 @@ fn exec(p: &SProg, t: usize, o: &Objs, rx: Option<&loom::sync::mpsc::Receiver<u8
             }
             SOp::Join(u) => {
                 if let Some(h) = handles[u as usize].take() {
-                    h.join().unwrap();
+                    if let Some(r) = h.join().unwrap() {
+                        rx_back.push(r);
+                    }
                 }
             }
             SOp::Send(id) => {
@@ -1338,24 +1347,34 @@ pub fn run_loom(p: &SProg, cfg: &SCfg) -> SRun {
             h.get().threads.lock().unwrap()[0] = Some(loom::thread::current());
             // every handle a child needs is created before the first spawn
             let dups: Vec<Handle> = (1..n).map(|_| h.dup()).collect();
-            let mut handles: Vec<Option<loom::thread::JoinHandle<()>>> = (0..n).map(|_| None).collect();
+            let mut handles: Vec<Option<loom::thread::JoinHandle<RxBack>>> = (0..n).map(|_| None).collect();
+            let owner = (p2.rx_owner as usize).min(n - 1);
+            let mut rx = Some(rx);
             for (t, hd) in (1..n).zip(dups) {
                 let (p3, it4) = (p2.clone(), it3.clone());
+                let my_rx = if t == owner { rx.take() } else { None };
                 let jh = loom::thread::spawn(move || {
-                    let mut none: Vec<Option<loom::thread::JoinHandle<()>>> = Vec::new();
-                    exec(&p3, t, hd.get(), None, &mut none, &it4);
+                    let mut none: Vec<Option<loom::thread::JoinHandle<RxBack>>> = Vec::new();
+                    let mut back = Vec::new();
+                    exec(&p3, t, hd.get(), my_rx.as_ref(), &mut none, &it4, &mut back);
                     drop(hd);
+                    // the receiver goes back to main: it outlives every sender
+                    my_rx
                 });
                 h.get().threads.lock().unwrap()[t] = Some(jh.thread().clone());
                 handles[t] = Some(jh);
             }
-            exec(&p2, 0, h.get(), Some(&rx), &mut handles, &it3);
+            let mut rx_back: Vec<loom::sync::mpsc::Receiver<u8>> = Vec::new();
+            exec(&p2, 0, h.get(), rx.as_ref(), &mut handles, &it3, &mut rx_back);
             // main joins what it has not joined yet (keeps the receiver alive until every sender is done)
             for t in 1..n {
                 if let Some(jh) = handles[t].take() {
-                    jh.join().unwrap();
+                    if let Some(r) = jh.join().unwrap() {
+                        rx_back.push(r);
+                    }
                 }
             }
+            let rx = rx.or_else(|| rx_back.pop()).expect("the receiver came back");
             {
                 let c0 = *h.get().mutex[0].lock().unwrap();
                 let c1 = *h.get().mutex[1].lock().unwrap();
